@@ -1,8 +1,256 @@
 package main
 
-// tryReplay instantiates a replay template for the failed obligation, if one
-// exists, and runs it against the real code. Returns true when the violation
-// was reproduced on the real code.
+import (
+	"encoding/json"
+	"fmt"
+	"os"
+	"os/exec"
+	"path/filepath"
+
+	"sort"
+	"strings"
+	"sync"
+)
+
+// Replay: when an obligation of property P fails, the property-level replay
+// tests under <verif>/replay/tests/P/<package dir>/*_test.go are run against
+// the real code of the repository under check (injected with `go test
+// -overlay`, nothing is written into the repository). The tests state the
+// property itself (not the contract) and receive the solver's counter-model
+// - the values of the function's parameters, where the solver gave one - in
+// the environment variable VERIF_MODEL (JSON), which they use as additional
+// inputs. A failing test is a reproduced violation on the real code.
+
+type replayRun struct {
+	Ran      bool
+	Failed   bool
+	Output   string
+	Files    []string
+	Cmds     []string
+	FailedIn []string
+}
+
+var (
+	replayMu    sync.Mutex
+	replayCache = map[string]*replayRun{}
+)
+
+// parseModel extracts the scalar parameter values (symbols p!name~N) of a solver model.
+func parseModel(model string) map[string]string {
+	out := map[string]string{}
+	// normalise: one definition per chunk
+	parts := strings.Split(model, "(define-fun ")
+	for _, p := range parts[1:] {
+		p = strings.TrimSpace(p)
+		f := strings.Fields(p)
+		if len(f) < 4 {
+			continue
+		}
+		name := strings.Trim(f[0], "|")
+		if f[1] != "()" {
+			continue
+		}
+		sort := f[2]
+		if sort != "Int" && sort != "String" && sort != "Bool" {
+			continue
+		}
+		i := strings.Index(p, sort)
+		val := strings.TrimSpace(p[i+len(sort):])
+		// strip closing parenthesis of the define-fun (and anything after)
+		depth := 0
+		inStr := false
+		end := len(val)
+		for k := 0; k < len(val); k++ {
+			c := val[k]
+			if c == '"' {
+				inStr = !inStr
+			}
+			if inStr {
+				continue
+			}
+			if c == '(' {
+				depth++
+			}
+			if c == ')' {
+				if depth == 0 {
+					end = k
+					break
+				}
+				depth--
+			}
+		}
+		val = strings.TrimSpace(val[:end])
+		if strings.HasPrefix(name, "p!") {
+			if j := strings.LastIndex(name, "~"); j > 0 {
+				name = name[:j]
+			}
+			out[strings.TrimPrefix(name, "p!")] = val
+		}
+	}
+	return out
+}
+
+func replayTestDirs(verif, prop string) map[string][]string {
+	base := filepath.Join(verif, "replay", "tests", prop)
+	out := map[string][]string{}
+	filepath.Walk(base, func(path string, info os.FileInfo, err error) error {
+		if err != nil || info.IsDir() || !strings.HasSuffix(path, "_test.go") {
+			return nil
+		}
+		rel, _ := filepath.Rel(base, filepath.Dir(path))
+		out[rel] = append(out[rel], path)
+		return nil
+	})
+	return out
+}
+
+func runReplayTests(verif, repo, prop string, model map[string]string) *replayRun {
+	rr := &replayRun{}
+	dirs := replayTestDirs(verif, prop)
+	if len(dirs) == 0 {
+		return rr
+	}
+	rr.Ran = true
+	scratch, err := os.MkdirTemp("", "govc-replay-")
+	if err != nil {
+		rr.Output = err.Error()
+		return rr
+	}
+	defer os.RemoveAll(scratch)
+	mj, _ := json.Marshal(model)
+	var pkgs []string
+	for d := range dirs {
+		pkgs = append(pkgs, d)
+	}
+	sort.Strings(pkgs)
+	var out strings.Builder
+	for _, d := range pkgs {
+		repl := map[string]string{}
+		// helpers shared by all properties: replay/tests/_common/_any/*_test.go, with the
+		// package clause "package PKG_test" instantiated for the package under test
+		if ms, _ := filepath.Glob(filepath.Join(verif, "replay", "tests", "_common", "_any", "*_test.go")); len(ms) > 0 && usesHelpers(dirs[d]) {
+			pkg := filepath.Base(d)
+			if d == "." {
+				pkg = "nodeenrollment"
+			}
+			for _, m := range ms {
+				b, err := os.ReadFile(m)
+				if err != nil {
+					continue
+				}
+				inst := filepath.Join(scratch, sanitizeFile(d)+"-"+filepath.Base(m))
+				os.WriteFile(inst, []byte(strings.Replace(string(b), "package PKG_test", "package "+pkg+"_test", 1)), 0o644)
+				repl[filepath.Join(repo, d, filepath.Base(m))] = inst
+				rr.Files = append(rr.Files, m)
+			}
+		}
+		for _, f := range dirs[d] {
+			repl[filepath.Join(repo, d, filepath.Base(f))] = f
+			rr.Files = append(rr.Files, f)
+		}
+		ov, _ := json.Marshal(map[string]interface{}{"Replace": repl})
+		ovf := filepath.Join(scratch, "ov-"+sanitizeFile(d)+".json")
+		os.WriteFile(ovf, ov, 0o644)
+		args := []string{"test", "-overlay", ovf, "-vet=off", "-count=1", "-timeout", "300s", "-run", "TestVerifReplay", "./" + d}
+		cmd := exec.Command("go", args...)
+		cmd.Dir = repo
+		cmd.Env = append(os.Environ(), "GOFLAGS=-mod=mod", "GOPROXY=off", "GOSUMDB=off", "GOTOOLCHAIN=local", "VERIF_MODEL="+string(mj))
+		b, err := cmd.CombinedOutput()
+		rr.Cmds = append(rr.Cmds, "cd "+repo+" && go "+strings.Join(args, " "))
+		txt := string(b)
+		if len(txt) > 6000 {
+			txt = txt[:3000] + "\n...\n" + txt[len(txt)-3000:]
+		}
+		out.WriteString("== ./" + d + "\n" + txt + "\n")
+		if err != nil && strings.Contains(string(b), "--- FAIL") {
+			rr.Failed = true
+			rr.FailedIn = append(rr.FailedIn, d)
+		}
+	}
+	rr.Output = out.String()
+	return rr
+}
+
+// tryReplay runs the replay tests of the property once per check run and
+// records the outcome in the replay file of the failed obligation.
 func tryReplay(verif, repo, prop string, r *obResult, replayPath string) bool {
+	replayMu.Lock()
+	rr, ok := replayCache[prop]
+	if !ok {
+		rr = runReplayTests(verif, repo, prop, parseModel(r.Model))
+		replayCache[prop] = rr
+	}
+	replayMu.Unlock()
+	b, err := os.ReadFile(replayPath)
+	if err != nil {
+		return false
+	}
+	var m map[string]interface{}
+	if json.Unmarshal(b, &m) != nil {
+		return false
+	}
+	m["solver_model_parameters"] = parseModel(r.Model)
+	if !rr.Ran {
+		m["replay_note"] = "no replay test exists for this property"
+	} else {
+		m["replay_test_files"] = rr.Files
+		m["replay_cmds"] = rr.Cmds
+		m["replay_output"] = rr.Output
+		m["replayed_on_code"] = rr.Failed
+		if rr.Failed {
+			m["replay_note"] = "the property-level replay tests FAIL on the real code of " + repo + " (packages " + strings.Join(rr.FailedIn, ", ") + "): the violation is reproduced"
+		} else {
+			m["replay_note"] = "the property-level replay tests pass on the real code: no failing input found for this obligation"
+		}
+	}
+	nb, _ := json.MarshalIndent(m, "", " ")
+	os.WriteFile(replayPath, nb, 0o644)
+	return rr.Failed
+}
+
+// cmdReplay re-runs the replay tests recorded in a replay file.
+func cmdReplay(args []string) int {
+	if len(args) < 2 || args[0] != "-file" {
+		fmt.Fprintln(os.Stderr, "usage: govc replay -file <path>")
+		return 2
+	}
+	b, err := os.ReadFile(args[1])
+	if err != nil {
+		fmt.Fprintln(os.Stderr, err)
+		return 2
+	}
+	var m map[string]interface{}
+	json.Unmarshal(b, &m)
+	prop, _ := m["property"].(string)
+	verif := envOr("VERIF_DIR", "/verif")
+	repo := envOr("VERIF_REPO", "/repo")
+	model := map[string]string{}
+	if mp, ok := m["solver_model_parameters"].(map[string]interface{}); ok {
+		for k, v := range mp {
+			model[k] = fmt.Sprint(v)
+		}
+	}
+	rr := runReplayTests(verif, repo, prop, model)
+	fmt.Printf("obligation: %v\nstatus: %v\n", m["obligation"], m["status"])
+	if !rr.Ran {
+		fmt.Println("no replay test exists for property", prop)
+		return 0
+	}
+	fmt.Println(rr.Output)
+	if rr.Failed {
+		fmt.Printf("VIOLATION property=%s replay=%s\n", prop, args[1])
+		return 1
+	}
+	fmt.Println("replay tests pass on", repo)
+	return 0
+}
+
+// usesHelpers: a test file opts into the shared helpers by mentioning one of them (prefix vr).
+func usesHelpers(files []string) bool {
+	for _, f := range files {
+		if b, err := os.ReadFile(f); err == nil && strings.Contains(string(b), "vrNew(") || strings.Contains(string(b), "vrServer(") || strings.Contains(string(b), "vrFreshNode(") {
+			return true
+		}
+	}
 	return false
 }
